@@ -230,6 +230,12 @@ impl FsOcflStore {
     }
 
     fn get_inventory_by_path(&self, object_id: &str, object_root: &str) -> Result<Inventory> {
+        // A storage layout may map an ID to a path that leaves the storage root. Whatever is
+        // there is not an object of this repository.
+        if !is_relative_descendant(object_root) {
+            return Err(not_found(object_id, None));
+        }
+
         let object_root = self.storage_root.join(object_root);
 
         if object_root.exists() {
@@ -1162,6 +1168,20 @@ fn is_object_root<P: AsRef<Path>>(path: P) -> Result<bool> {
         }
     }
     Ok(false)
+}
+
+/// Returns true if the path consists of plain components only, and therefore names something
+/// beneath the directory it is joined to
+fn is_relative_descendant(path: &str) -> bool {
+    let mut descends = false;
+    for component in Path::new(path).components() {
+        match component {
+            path::Component::Normal(_) => descends = true,
+            path::Component::CurDir => (),
+            _ => return false,
+        }
+    }
+    descends
 }
 
 /// Returns true if any directory beneath the specified directory is an OCFL object root
